@@ -351,7 +351,7 @@ def run(tier, seed, only=None):
                "class = (entry, algorithm, singular?, op, position bucket); random histories of length <= 16 with "
                "indices from a pool of 5 (3-slot cache => hits, evictions, key collisions) + all histories of length "
                "<= 2 (3 thorough) over a reduced alphabet")
-    nprob = tier_n(tier, 40, 1200)
+    nprob = tier_n(tier, 120, 1200)
     nhist = tier_n(tier, 2, 4)
     items, info = [], []
     exh_problems = []
